@@ -51,6 +51,11 @@ def run(ctx, tier):
                  ("T2", "hostname shortcut excludes IPv4-shaped hosts"), ("T3", "component slots"),
                  ("T4", "protocol canonicaliser byte classes"),
                  ("T6", "a scheme's default port is compared with a port only where 0 (= the scheme has no default port, e.g. file) is told apart"),
+                 ("T7", "a canonicaliser hands the whole-URL parser only its literal dummy URL; the value enters through a "
+                        "setter (= state override) or the component's own encoder, and the components the Standard routes "
+                        "through the basic URL parser drop ASCII tab/newline first"),
+                 ("T8", "(shared with C14.M6) 'protocol matches a special scheme', which selects the hierarchical or the opaque "
+                        "pathname canonicaliser, enumerates exactly the special schemes in both of its arms"),
                  ("T5", "each URLPattern canonicaliser scans and encodes with the one percent-encode set of its component")):
         ctx.rule(r, t)
     cfgs = C.configs_for(tier, thorough=["release", "devchecks", "amalgamated"])
@@ -60,6 +65,74 @@ def run(ctx, tier):
         check(ctx, fxs[name])
         check_canonicaliser_sets(ctx, fxs[name])
         check_default_port_uses(ctx, fxs[name])
+        check_value_entry(ctx, fxs[name])
+        from rules import c14
+        c14.check_special_scheme_twins(ctx, fxs[name], "T8")
+
+
+# canonicalisers the Standard defines as "basic URL parser with <state> as state override": the parser removes ASCII tab
+# and newline from its input before any state runs, so a canonicaliser that encodes by hand has to do the same.  The
+# username/password canonicalisers are "set the username/password" (no parser run) and must keep those bytes (they
+# are percent-encoded as C0 controls).
+STRIPS_TAB_NEWLINE = {"canonicalize_protocol": True, "canonicalize_search": True, "canonicalize_hash": True, "canonicalize_port": True,
+                      "canonicalize_port_with_protocol": True, "canonicalize_opaque_pathname": True,
+                      "canonicalize_username": False, "canonicalize_password": False}
+STATE_SETTERS = {"set_hostname", "set_pathname", "set_search", "set_hash", "set_port", "set_username", "set_password",
+                 "set_protocol", "set_host"}
+
+
+def is_literal_text(e):
+    e = X.strip(e)
+    while isinstance(e, dict) and e.get("k") == "construct" and len(e.get("args", [])) == 1:
+        e = X.strip(e["args"][0])
+    return isinstance(e, dict) and e.get("k") == "lit" and bool(e.get("str"))
+
+
+def check_value_entry(ctx, fx):
+    """T7.  ada::parse starts in scheme start state: a value pasted behind a scheme literal is read as a whole URL
+    ("//x/y" becomes an authority, dot segments are removed, the trailing space is trimmed, a bad host fails), which is
+    not what any of the Standard's canonicalisation steps (all state overrides on a dummy URL) does."""
+    n = nparse = 0
+    for f in fx.functions:
+        if not (C.first_party(f) and f["qname"].startswith(NS + "canonicalize_")) or "(anonymous" in f["qname"]:
+            continue
+        short = f["qname"].split("::")[-1]
+        n += 1
+        strips = setter = False
+        bad = []
+        for nd, st, b in C.all_nodes(f):
+            if nd.get("k") != "call":
+                continue
+            callee = nd.get("callee") or ""
+            if callee.startswith("ada::parse<") or callee.startswith("ada::parser::parse_url"):
+                nparse += 1
+                a = nd.get("args", [])
+                if not a or not is_literal_text(a[0]):
+                    bad.append((X.show(nd)[:90], st.get("loc", "")))
+            if callee.startswith("ada::helpers::remove_ascii_tab_or_newline"):
+                strips = True
+            if nd.get("method") and nd.get("name") in STATE_SETTERS and (nd.get("cls") or "").startswith("ada::url"):
+                setter = True
+        ctx.check("T7", "%s: whole-URL parses take a literal" % short, not bad,
+                  "every ada::parse call in it receives a string literal (the dummy URL)",
+                  "%s passes `%s` to ada::parse: the value is parsed from scheme start state as part of a whole URL, so a "
+                  "leading \"//\" becomes an authority, dot segments are removed, trailing C0/space is trimmed and a bad "
+                  "authority fails — none of which the state override the Standard prescribes for this component does"
+                  % (f["qname"], bad[0][0] if bad else ""), where=(bad[0][1] if bad else f["loc"]).replace("/repo/", ""))
+        want = STRIPS_TAB_NEWLINE.get(short)
+        if want is True:
+            ctx.check("T7", "%s: ASCII tab/newline removed" % short, strips or setter or bool(bad),
+                      "remove_ascii_tab_or_newline (or a setter, which does it) is applied",
+                      "%s neither calls helpers::remove_ascii_tab_or_newline nor goes through a setter: the Standard runs the "
+                      "basic URL parser for this component, which removes ASCII tab and newline from the value first"
+                      % f["qname"], where=f["loc"].replace("/repo/", ""))
+        elif want is False:
+            ctx.check("T7", "%s: keeps ASCII tab/newline" % short, not strips,
+                      "no remove_ascii_tab_or_newline (set the username/password percent-encodes them)",
+                      "%s removes ASCII tab/newline, but the Standard's 'set the username/password' keeps them (percent-encoded)"
+                      % f["qname"], where=f["loc"].replace("/repo/", ""))
+    ctx.floor("T7", n, 10, "URLPattern canonicalisers")
+    ctx.floor("T7", nparse, 2, "whole-URL parser calls inside canonicalisers")
 
 
 DEFAULT_PORT_FNS = ("ada::scheme::get_special_port", "ada::url_base::get_special_port", "ada::url_base::scheme_default_port")
